@@ -39,13 +39,15 @@ class _Boom(Exception):
     pass
 
 
-def check_output(v, case, lazy_p, eager_p, llog, elog, out, K, ctx, use_dag, prefix=""):
+def check_output(v, case, lazy_p, eager_p, llog, elog, out, K, ctx, use_dag, prefix="", cached=False):
     from pipefunc import PipeFunc
     from pipefunc.lazy import construct_dag
     import networkx as nx
 
     w = dict(case=daggen.describe(case), output=out, kwargs=K, ctx=ctx, construct_dag=use_dag)
     bad = v.bad if ctx != "after-raised-context" else (lambda sig, msg, **k: v.bad(sig + "/after-raised-context", msg, **k))
+    if "/cache=" in ctx:
+        bad = lambda sig, msg, **k: v.bad(sig + "/" + ctx.split("/", 1)[1], msg, **k)  # noqa: E731
     try:
         exp = daggen.ref_eval(case, out, K, prefix=prefix)
     except daggen.Missing:
@@ -91,6 +93,8 @@ def check_output(v, case, lazy_p, eager_p, llog, elog, out, K, ctx, use_dag, pre
     calls = [strip(c["f"]) for c in probes.log_read(llog)]
     extra, miss = multiset_diff(calls, exp["calls"])
     v.count("evaluations_compared")
+    if cached:
+        miss = []  # a pipeline with a cache may answer from it: only calls beyond the reference are judged
     if extra or miss:
         kind = "duplicate-call" if extra and not miss and set(extra) <= set(exp["calls"]) else "calls"
         bad(f"{kind}", f"after 3x evaluate(): extra={extra} missing={miss}", **w)
@@ -143,6 +147,51 @@ def check_output(v, case, lazy_p, eager_p, llog, elog, out, K, ctx, use_dag, pre
     extra, miss = multiset_diff(names, exp["calls"])
     if extra or miss:
         bad("dag:nodes-vs-reference", f"function nodes: extra={extra} missing={miss}", **w)
+
+
+def after_failed_evaluate(v, case, scratch, rng, explicit_defaults):
+    outs = [o for o in daggen.all_outputs(case)]
+    out = rng.choice(outs)
+    K = {r: f"v_{r}" for r in daggen.needed_roots(case, out)}
+    try:
+        exp = daggen.ref_eval(case, out, K, prefix="Y")
+    except daggen.Missing:
+        return
+    if not exp["calls"]:
+        return
+    victim = rng.choice(sorted(set(exp["calls"])))
+    for mode in ("transient", "permanent"):
+        spec = ["ValueError", f"boom-{mode}"]
+        fault = {victim: ({"raise_nth": [1, spec]} if mode == "transient" else {"raise_always": spec})}
+        log = probes.new_log(scratch, f"lazyY{mode}")
+        w = dict(case=daggen.describe(case), output=out, kwargs=K, failing_function=victim, fault=mode)
+        try:
+            with quiet():
+                lp = daggen.build_pipeline(case, log=log, prefix="Y", fault=fault, pipeline_kwargs={"lazy": True}, explicit_defaults=explicit_defaults)
+                r = lp(out, **K)
+        except Exception as e:  # noqa: BLE001
+            v.bad(exc_sig(e, "lazy-call") + "/after-failed-evaluate", f"lazy call raised: {exc_msg(e)}", **w)
+            continue
+        outcomes = []
+        for attempt in range(3):
+            try:
+                with quiet():
+                    outcomes.append(("ok", r.evaluate()))
+            except Exception as e:  # noqa: BLE001
+                outcomes.append(("raised" if "boom-" in str(e) else "other", f"{type(e).__name__}: {e}"[:100]))
+        v.count(f"failed_evaluate_retries:{mode}")
+        norm = lambda x: tuple(x) if isinstance(x, (list, tuple)) else x  # noqa: E731
+        if mode == "transient":
+            if outcomes[0][0] != "raised":
+                v.bad("failed-evaluate:first-attempt-did-not-raise", f"outcomes {outcomes}", **w)
+            for k in (1, 2):
+                if outcomes[k][0] != "ok" or norm(outcomes[k][1]) != norm(exp["value"]):
+                    v.bad("failed-evaluate:retry-differs-from-eager", f"evaluate() #{k + 1} after a transient failure gave {outcomes[k]!r:.200}, "
+                          f"the eager result is {exp['value']!r:.200}", **w)
+                    break
+        else:
+            if any(o[0] != "raised" for o in outcomes):
+                v.bad("failed-evaluate:permanent-failure-not-raised-again", f"outcomes of three evaluate() calls: {outcomes!r:.300}", **w)
 
 
 def after_raised_context(v, case, lazy_p, llog, elog, scratch, rng, explicit_defaults):
@@ -232,9 +281,14 @@ def run_case(desc):
             case = daggen.case_from_seed(desc["seed"], i, p_falsy=0.15 if i % 2 else 0.0, p_picker=0.5 if i % 3 == 2 else 0.0)
             rng = random.Random(f"c18:{desc['seed']}:{i}")
             llog, elog = probes.new_log(scratch, "lazy"), probes.new_log(scratch, "eager")
+            # every fourth case: the lazy pipeline has a cache of its own (cache=True on every function) - a task graph must
+            # still be complete for EVERY construct_dag() block, also when the same request was made in an earlier block
+            cached = i % 4 == 1
+            ctype = ["lru", "simple", "lru", "lru"][(i // 4) % 4] if cached else None
             try:
                 with quiet():
-                    lazy_p = daggen.build_pipeline(case, log=llog, pipeline_kwargs={"lazy": True}, explicit_defaults=(i % 4 == 2))
+                    lazy_p = daggen.build_pipeline(case, log=llog, pipeline_kwargs={"lazy": True, **({"cache_type": ctype} if cached else {})},
+                                                   explicit_defaults=(i % 4 == 2), cache=({f["name"] for f in case["funcs"]} if cached else None))
                     eager_p = daggen.build_pipeline(case, log=elog, explicit_defaults=(i % 4 == 2))
             except Exception as e:  # noqa: BLE001
                 v.bad(exc_sig(e, "refused-construct"), f"valid DAG refused: {exc_msg(e)}", case=daggen.describe(case))
@@ -244,15 +298,21 @@ def run_case(desc):
             for out in outs:
                 roots = daggen.needed_roots(case, out)
                 K = {r: f"v_{r}" for r in roots if not (r in case["defaults"] and rng.random() < 0.5)}
-                for use_dag in (False, True):
-                    check_output(v, case, lazy_p, eager_p, llog, elog, out, K, "roots", use_dag)
+                for use_dag in ((False, True, True, False) if cached else (False, True)):
+                    check_output(v, case, lazy_p, eager_p, llog, elog, out, K, "roots" + (f"/cache={ctype}" if cached else ""), use_dag, cached=cached)
+                if cached:
+                    v.count(f"cached_lazy_requests:{ctype}")
                 inter = daggen.interior_names(case, out) if isinstance(out, str) else []
                 if inter:
                     c = rng.choice(inter)
                     K2 = {**{r: f"v_{r}" for r in daggen.needed_roots(case, out, {c})}, c: f"s_{c}"}
-                    check_output(v, case, lazy_p, eager_p, llog, elog, out, K2, "intermediate", rng.random() < 0.5)
+                    check_output(v, case, lazy_p, eager_p, llog, elog, out, K2, "intermediate", rng.random() < 0.5, cached=cached)
                 if isinstance(out, str) and len(daggen.needed_funcs(case, [out])) >= 2:
                     keys.append(daggen.signature(case) + "|" + out)
+            # a node whose function raised is not "evaluated": a second evaluate() of the same deferred object after a
+            # transient fault must give the eager value, after a permanent fault it must raise again
+            if i % 3 == 1:
+                after_failed_evaluate(v, case, scratch, rng, explicit_defaults=(i % 4 == 2))
             # a construct_dag() block left by an exception must not influence later lazy calls: a twin pipeline
             # (same structure and output names, other functions) called afterwards with the same arguments, outside
             # any context and inside a new one, must still evaluate to ITS eager result with exactly-once calls
